@@ -5,6 +5,7 @@ generate_Gamma_and_rays, increment, multi_index_binomial, convert_multi_indices_
 code vs the exact-rational Lean model.  Oracle on the implementation: the identity
 sum_j Gamma[i,j] ray_j^alpha = delta(i,alpha) evaluated with the implementation's own Gamma."""
 import itertools
+import math
 import numpy as np
 from fractions import Fraction as F
 from common import *
@@ -70,6 +71,22 @@ def helpers(ctx, N, d):
             ctx.evaluations += 1
             if abs(got - m) > 1e-9 * max(1, abs(m)):
                 return 'binomial: multi_index_binomial(%s,%s) = %s, model %s' % (i.tolist(), j.tolist(), got, m)
+    # ray^alpha (multi_index_pow) for one multi-index and for the whole stack of multi-indices, multi_index_factorial
+    rays = J
+    for r in rays[: 4]:
+        want = [int(np.prod([int(r[n]) ** int(a[n]) for n in range(N)])) for a in J]
+        got1 = [float(ei.multi_index_pow(np.array(r), np.array(a))) for a in J]
+        gotS = np.asarray(ei.multi_index_pow(np.array(r), np.array(J)), dtype=float)
+        ctx.evaluations += 1
+        if gotS.shape != (len(J),) or not np.allclose(got1, want, rtol=1e-12) or not np.allclose(gotS, want, rtol=1e-12):
+            return 'multi_index_pow-%d-%d: ray^alpha for the ray %s differs from the exact monomials (one multi-index at a time: %s, stacked: shape %s)' % (
+                N, d, r.tolist(), np.allclose(got1, want, rtol=1e-12), gotS.shape)
+    for a in J[: 6]:
+        wantf = 1
+        for k in a:
+            wantf *= math.factorial(int(k))
+        if int(ei.multi_index_factorial(np.array(a))) != wantf:
+            return 'multi_index_factorial: %s! = %s, exact %s' % (a.tolist(), ei.multi_index_factorial(np.array(a)), wantf)
     pos = ei.convert_multi_indices_to_pos(J).tolist()
     mpos = [ctx.model.ask({'op': 'interp', 'what': 'pos', 'i': [int(v) for v in i]})['r'] for i in J]
     if pos != mpos:
